@@ -248,6 +248,34 @@ namespace c15
     }
   };
 
+  /// ownership of global dofs: which (dimension, entity, k) owns global dof i according to the DofAssignment classes
+  template<typename Space_, int d_>
+  struct Ownership
+  {
+    /// appends (global index -> (dim, entity, k)); returns false on a duplicate owner
+    static bool collect(const Space_& space, std::map<Index, std::array<Index, 3>>& owner, std::vector<int>& per_dim)
+    {
+      bool ok = true;
+      typedef typename Space_::template DofAssignment<d_, double>::Type DofAssign;
+      DofAssign da(space);
+      const Index ne = space.get_mesh().get_num_entities(d_);
+      int cnt = -1;
+      for(Index e = 0; e < ne; ++e)
+      {
+        da.prepare(e);
+        const int n = da.get_num_assigned_dofs();
+        if(cnt < 0) cnt = n; else if(cnt != n) ok = false;
+        if(n > da.get_max_assigned_dofs()) ok = false;
+        for(int k = 0; k < n; ++k)
+          if(!owner.emplace(da.get_index(k), std::array<Index, 3>{{Index(d_), e, Index(k)}}).second) ok = false;
+        da.finish();
+      }
+      per_dim[(size_t)d_] = (cnt < 0 ? 0 : cnt);
+      if constexpr(d_ > 0) ok = Ownership<Space_, d_ - 1>::collect(space, owner, per_dim) && ok;
+      return ok;
+    }
+  };
+
   /// node functional / dof assignment objects reused over all entities of one dimension in non-natural orders must give
   /// exactly what a fresh object per entity gives (state left behind by prepare/finish)
   template<typename Space_, typename Function_, int d_>
@@ -458,6 +486,62 @@ namespace c15
       for(auto& e : exps_total_degree<D>(pk)) fs.push_back(Poly<D>::monomial(e));
       complete = SI::is_simplex && Desc_::template pk_is_complete<Shape_>();
       return fs;
+    }
+
+    /// independent count/ownership oracle for the dof mapping: (i) the DofAssignment classes of all dimensions own every
+    /// global dof exactly once and as many per entity as the harness table says; (ii) local dof j of a cell, decoded by the
+    /// documented local layout (dimension ascending, local entity, dof in entity), maps to the dof owned by exactly that
+    /// entity of the cell: DofMapping(cell, j) == owner(dim, index_set<D,dim>(cell, l), k)
+    void check_ownership(const MeshType& mesh, const SpaceType& space)
+    {
+      std::map<Index, std::array<Index, 3>> owner;
+      std::vector<int> per_dim((size_t)(D + 1), 0);
+      const bool unique = Ownership<SpaceType, D>::collect(space, owner, per_dim);
+      c.check(unique, kp + " own.unique", "a global dof is assigned to two entities (or the number of assigned dofs varies / exceeds get_max_assigned_dofs)");
+      c.check(Index(owner.size()) == space.get_num_dofs() && (owner.empty() || owner.rbegin()->first + 1 == space.get_num_dofs()), kp + " own.cover",
+        [&]{ return "the dof assignments own " + std::to_string(owner.size()) + " dofs, the space has " + std::to_string(space.get_num_dofs()); });
+      for(int d = 0; d <= D; ++d)
+        c.check(per_dim[(size_t)d] == Desc_::template dofs_per_entity<Shape_>(d) || mesh.get_num_entities(d) == 0, kp + " own.per-entity",
+          [&]{ return "dimension " + std::to_string(d) + ": " + std::to_string(per_dim[(size_t)d]) + " dofs assigned per entity, table says " + std::to_string(Desc_::template dofs_per_entity<Shape_>(d)); });
+      // inverse lookup (dim, entity, k) -> global
+      std::map<std::array<Index, 3>, Index> inv;
+      for(auto& kv : owner) inv[kv.second] = kv.first;
+      typename SpaceType::DofMappingType dm(space);
+      for(Index cell = 0; cell < mesh.get_num_entities(D); ++cell)
+      {
+        dm.prepare(cell);
+        int j = 0; bool ok = true;
+        for(int d = 0; d <= D && ok; ++d)
+        {
+          const int dpe = Desc_::template dofs_per_entity<Shape_>(d);
+          const int nl = num_local_faces<Shape_>(d);
+          for(int l = 0; l < nl && ok; ++l)
+          {
+            Index e = cell;
+            if(d < D) e = entity_of_cell(mesh, cell, d, l);
+            for(int k = 0; k < dpe && ok; ++k, ++j)
+            {
+              c.count("ownership_dofs");
+              auto it = inv.find(std::array<Index, 3>{{Index(d), e, Index(k)}});
+              ok = (j < dm.get_num_local_dofs()) && it != inv.end() && it->second == dm.get_index(j);
+            }
+          }
+        }
+        if(!ok || j != dm.get_num_local_dofs())
+        {
+          c.fail(kp + " own.local-layout", "cell " + std::to_string(cell) + ": local dof " + std::to_string(j - 1) + " does not map to the dof owned by its entity (dimension-major local layout)");
+          dm.finish(); return;
+        }
+        dm.finish();
+      }
+    }
+
+    static Index entity_of_cell(const MeshType& mesh, Index cell, int d, int l)
+    {
+      if(d == 0) return mesh.template get_index_set<D, 0>()(cell, l);
+      if constexpr(D >= 2) { if(d == 1) return mesh.template get_index_set<D, 1>()(cell, l); }
+      if constexpr(D >= 3) { if(d == 2) return mesh.template get_index_set<D, 2>()(cell, l); }
+      return cell;
     }
 
     /// all data a prepared evaluator returns on one cell at the points pts (values, gradients, Hessians, trafo data, dofs)
@@ -673,6 +757,7 @@ namespace c15
         }
       }
 
+      check_ownership(mesh, space);
       Desc_::extra(*this, space, geoms);
 
       // ---------------------------------------------------------------- object reuse and reduced configurations
